@@ -295,9 +295,14 @@ namespace Pistache::Http
             if (!match_until(' ', cursor))
                 return State::Again;
 
+            // Convert a terminated copy: the buffer is not, and strtol() skips
+            // leading white space (an empty code made it read on past the SP)
+            const std::string codeText = codeToken.text();
+            if (codeText.empty() || !std::isdigit(static_cast<unsigned char>(codeText[0])))
+                raise("Failed to parse return code");
             char* end;
-            auto code = strtol(codeToken.rawText(), &end, 10);
-            if (*end != ' ')
+            auto code = strtol(codeText.c_str(), &end, 10);
+            if (*end != '\0')
                 raise("Failed to parse return code");
             response->code_ = static_cast<Http::Code>(code);
 
